@@ -2118,7 +2118,10 @@ pub fn dwarf_case_full(inp: &Input, version: u16, spanning: bool, nested: bool, 
         // of them has to have an image, whatever the recorded transform says
         let live = absmod::liveness(&f.ops);
         let survivors = f.ops.iter().zip(live.iter()).filter(|(o, l)| **l && o.o != "Nop").count();
-        fmap.push(json!({"fi": f.idx, "fo": fo, "imported": f.imported, "map": m, "survivors": survivors}));
+        // the operators themselves, for a judgement of the correspondence that does not rest on the transform
+        let ino: Vec<&str> = f.ops.iter().map(|o| o.o.as_str()).collect();
+        let outo: Vec<&str> = if !f.imported && fo >= 0 { outm.funcs.get(fo as usize).map(|of| of.ops.iter().map(|o| o.o.as_str()).collect()).unwrap_or_default() } else { vec![] };
+        fmap.push(json!({"fi": f.idx, "fo": fo, "imported": f.imported, "map": m, "survivors": survivors, "ino": ino, "outo": outo}));
     }
     Some(json!({"id": id, "source": src, "outcome": "ok", "version": version, "spanning": spanning, "variant": variant, "read_error": read_err,
         "out_valid": absmod::validate(&em.bytes).is_ok(),
